@@ -155,6 +155,12 @@ pub fn gen_case(rng: &mut Rng) -> Case {
             }
         }
         if rng.chance(0.2) && !pts.is_empty() { let d = pts[rng.below(pts.len())]; pts.push(d); }
+        // now and then: a requested time a little beyond an interior step end and a terminal time event between the two
+        if rng.chance(0.15) && xs.len() > 2 {
+            let k = 1 + rng.below(xs.len() - 2);
+            pts.push(xs[k] + dir * 8e-13);
+            events.push(EventSpec { a: 1.0, b: vec![0.0; n], c: xs[k] + dir * 2e-13, dir: 0, terminal: Some(1) });
+        }
         pts.retain(|t| (t - x0) * dir >= -1e-12 && (xend - t) * dir >= -1e-12);
         pts.sort_by(|a, b| if fwd { a.partial_cmp(b).unwrap() } else { b.partial_cmp(a).unwrap() });
         teval = Some(pts);
